@@ -86,7 +86,7 @@ def nice_value(sym, plan, rng):
         return sympy.Integer(rng.randint(1, 6))
     if N._is_angle(dim):  # pylint: disable=protected-access
         return sympy.Rational(rng.randint(5, 140), 100)
-    v = sympy.Rational(rng.randint(1, 999), 10 ** rng.randint(0, 4)) * 10 ** rng.randint(-3, 2)
+    v = sympy.Rational(rng.randint(1, 999), 10 ** rng.randint(0, 4)) * sympy.Integer(10) ** rng.randint(-3, 2)
     if not (sym.is_positive or sym.is_nonnegative) and rng.random() < 0.2:
         v = -v
     return v
@@ -302,7 +302,9 @@ def boundary_points(ex, rel, plan, rng):
         for _try in range(4):
             env = {s: nice_value(s, plan, rng) for s in syms if s != target}
             try:
-                sols = sympy.solve(sympy.Eq(rel.lhs, rel.rhs).xreplace(env), target)
+                num = sympy.fraction(sympy.together((rel.lhs - rel.rhs).xreplace(env)))[0]
+                poly = sympy.Poly(sympy.expand(num), target)
+                sols = list(sympy.roots(poly, target).keys()) if 1 <= poly.degree() <= 2 and poly.domain.is_QQ or poly.domain.is_ZZ else []
             except Exception:  # pylint: disable=broad-except
                 sols = []
             for sol in sols:
@@ -407,9 +409,6 @@ def inverse_numeric(module, rng):
                 # module scalars (mass, ...) are shared by f and g: the same substitution on both sides
                 wv = [_num(sympy.sympify(c).xreplace(rep)) for c in wc] + [0.0] * (len(xs) - len(wc))
                 xv = [_num(c) for c in xs] + [0.0] * (len(wc) - len(xs))
-                if free:
-                    # f's output already contained the scalars; re-evaluate consistently
-                    wv = [_num(sympy.simplify(sympy.sympify(c)).xreplace(rep)) for c in wc] + [0.0] * (len(xs) - len(wc))
                 status = "ok" if _same(wv, xv) else "mismatch"
                 recs.append({"stream": "inverse-mixed-length", "pair": f"{gname}({fname}(x))", "short": short, "status": status,
                     "observed": wv, "closed_form_value": xv, "env": {k: str(v) for k, v in plain.items()}})
